@@ -146,12 +146,21 @@ class C04(Check):
         exp = symx.explore(classify_db.harness, {'G': G, 'step_s': 1800, 'props': ('C04',), 'seed': self.seed, 'replay_every': 13},
                            name='classify_intervals[G=%d]' % G)
         self.absorb(exp, need_paths=2)
+        # time steps that do not divide an hour (45 min) / longer than an hour (2 h)
+        for st, g in ((2700, 3), (7200, 3)) if self.tier == 'quick' else ((2700, 4), (7200, 4), (1200, 4)):
+            exp = symx.explore(classify_db.harness, {'G': g, 'step_s': st, 'props': ('C04',), 'seed': self.seed, 'replay_every': 13, 'max_gaps': 1},
+                               name='classify_intervals_step%d[G=%d]' % (st, g))
+            self.absorb(exp, need_paths=2)
+        self.bounds['DB level']['other time steps'] = '2700 s, 7200 s (G=3)' if self.tier == 'quick' else '1200, 2700, 7200 s (G=4)'
 
     def replay(self, failure):
         if failure['harness'].startswith('classify_intervals'):
             from checks import classify_db
             G = int(failure['harness'].split('=')[1].rstrip(']'))
-            return classify_db.replay_failure({'G': G, 'step_s': 1800}, failure)
+            st = 1800
+            if '_step' in failure['harness']:
+                st = int(failure['harness'].split('_step')[1].split('[')[0])
+            return classify_db.replay_failure({'G': G, 'step_s': st}, failure)
         N = int(failure['harness'].split('=')[1].rstrip(']'))
         m = model_fractions(failure.get('model'))
         import numpy as np
